@@ -8,7 +8,7 @@ open Morfuse.Gen.EmitConsts
 set_option maxRecDepth 8000
 
 theorem ms_field (idx : Nat) (ev : Nat) (rd : Nat) (wr : Nat) (l : Node) (ih1 : MSP l) : MSP (.field idx ev rd wr l) := by
-  refine ⟨fun hpl => ?_, fun hpl => ?_, fun hpl => ?_⟩ <;> intro L c p h
+  refine MSP.of3 _ (fun hpl => ?_) (fun hpl => ?_) (fun hpl => ?_) (by intro hh; simpa [Node.evOk, Node.endsNL] using hh) <;> intro L c p h
   · simp only [emit]
     split
     · rename_i b
@@ -42,12 +42,6 @@ theorem ms_listener (b : Nat)  : MSP (.listener b) := by
   ms_walk
 
 theorem ms_str (idx : Nat)  : MSP (.str idx) := by
-  ms_walk
-
-theorem ms_int (v : Nat)  : MSP (.int v) := by
-  ms_walk
-
-theorem ms_float (bits : Nat)  : MSP (.float bits) := by
   ms_walk
 
 theorem ms_vec (a : Node) (b : Node) (c : Node) (ih1 : MSP a) (ih2 : MSP b) (ih3 : MSP c) : MSP (.vec a b c) := by
